@@ -279,6 +279,13 @@ pub fn run_case(tape: &mut Tape, _tier: Tier, _p: &CaseParams) -> CaseOutcome {
         Some(("attribute", format!("{:?} vs {:?}", g.3, e.attr)))
       } else if g.4 != e.deno_types {
         Some(("deno_types", format!("{:?} vs {:?}", g.4, e.deno_types)))
+      } else if g.2 && e.static_type_import && !e.code.is_none() {
+        // "static wins when a specifier is imported both ways": a static
+        // type-only import next to a dynamic code import of the same text
+        Some((
+          "is_dynamic:static-type-import-does-not-count",
+          "true although the same specifier is also imported statically (type-only)".to_string(),
+        ))
       } else {
         None
       };
